@@ -34,7 +34,7 @@ def one(m):
             vd = "%s/_v/%s" % (wt, pp)
             os.makedirs(vd, exist_ok=True)
             shutil.copy("/verif/known_findings.json", vd)
-            q = subprocess.run("DFS_NO_EVIDENCE=1 /verif/bin/dfscheck -property %s -repo %s -verif %s" % (pp, wt, vd), shell=True, cwd='/verif', stdout=subprocess.PIPE, stderr=subprocess.STDOUT, text=True)
+            q = subprocess.run("DFS_NO_EVIDENCE=1 " + os.environ.get('DFSBIN', '/verif/bin/dfscheck') + " -property %s -repo %s -verif %s" % (pp, wt, vd), shell=True, cwd='/verif', stdout=subprocess.PIPE, stderr=subprocess.STDOUT, text=True)
             v = [l for l in q.stdout.splitlines() if "] violated in" in l or "] undecided in" in l]
             return pp, q.returncode, v
         with ThreadPoolExecutor(max_workers=4) as ex:
